@@ -186,6 +186,22 @@ func genAccessGuards(hl, mb *pkgFiles, hdr, out string) {
 	}
 	b.WriteString("/-- HandleDisconnectUser: kinds of its top-level statements, in order -/\n")
 	fmt.Fprintf(&b, "def disconnectFlow : List String := [%s]\n\n", strings.Join(df, ", "))
+	// folder-kind checks: bodies of FilePath.IsDropbox / IsUploadDir / resolvedName and ReadPath's item loop
+	var pcs [][2]string
+	for _, fn := range []string{"IsDropbox", "IsUploadDir", "resolvedName"} {
+		if fd := findFunc(hl, "FilePath", fn); fd != nil && fd.Body != nil {
+			pcs = append(pcs, [2]string{fn, collapse(src(fd.Body))})
+		}
+	}
+	if fd := findFunc(hl, "", "ReadPath"); fd != nil && fd.Body != nil {
+		ast.Inspect(fd.Body, func(n ast.Node) bool {
+			if rs, ok := n.(*ast.RangeStmt); ok {
+				pcs = append(pcs, [2]string{"ReadPath.loop", collapse(src(rs))})
+			}
+			return true
+		})
+	}
+	b.WriteString(pairList("placeChecks", "folder-kind checks of FilePath and the item loop of ReadPath (whitespace-collapsed source)", pcs))
 	b.WriteString("end Mobius.Generated\n")
 	writeIfChanged(filepath.Join(out, "AccessGuards.lean"), b.String())
 }
